@@ -115,7 +115,10 @@ def parse_kani_json(path, log_text):
     for r in d['verification_results']['results']:
         hid = r['harness_id']
         checks = r.get('checks') or []
-        failed = [c for c in checks if c['status'] == 'Failure']
+        failed_all = [c for c in checks if c['status'] == 'Failure']
+        # a reachable construct the verifier cannot translate is a tool limit (UNDECIDED), not a refutation
+        unsupported = [c for c in failed_all if 'not currently supported by Kani' in (c.get('description') or '') or c.get('category') == 'unsupported_construct']
+        failed = [c for c in failed_all if c not in unsupported]
         undet = [c for c in checks if c['status'] in ('Undetermined', 'Unknown')]
         covers_unsat = [c for c in checks if c['status'] in ('Unsatisfiable', 'Uncoverable')]
         covers_sat = [c for c in checks if c['status'] in ('Satisfied', 'Covered')]
@@ -135,7 +138,8 @@ def parse_kani_json(path, log_text):
             covers_unsat=[c['description'] for c in covers_unsat], covers_sat=len(covers_sat),
             named_samples=sorted(set(c['description'] for c in named))[:12],
             solver_s=st.get('runtime_solver_s'), symex_s=st.get('runtime_symex_s'),
-            vccs=st.get('vccs_generated'), reason=('' if status != 'undecided' else 'no result (timeout / resource limit)'))
+            vccs=st.get('vccs_generated'),
+            reason=('' if status != 'undecided' else ('construct not supported by the verifier: %s' % unsupported[0]['description'][:120] if unsupported else 'no result (timeout / resource limit)')))
     return out
 
 
